@@ -126,12 +126,50 @@ def run(ck):
             ck.case(dict(run=inp), nontrivial=True)
         except Exception as e:
             ck.violation("run-error", "%s: %s" % (type(e).__name__, str(e)[:200]), inp)
+    # ---- a compartment that stays put in some realisations and moves in others (slow last step of a chain): several gridded
+    #      tau-leap runs in ONE call — what the first realisation does must not shape the rows of the later ones
+    try:
+        mc = pg.model(state=["A", "B", "C"], param=["r1", "r2"],
+                      event=[pg.Event(rate="r1*A", transition_list=[pg.Transition(origin="A", destination="B", transition_type="T")]),
+                             pg.Event(rate="r2*B", transition_list=[pg.Transition(origin="B", destination="C", transition_type="T")])])
+        mc.parameters = {"r1": 1.0, "r2": 0.02}
+        mc.initial_values = ([30, 0, 0], np.float64(0))
+        for sd in range(ck.budget(6, 20)):
+            for exact in (False, True):
+                np.random.seed(1000 + sd)
+                with pg.quiet():
+                    out = mc.solve_stochast(np.linspace(0.0, 1.5, 7), 6, exact=exact, full_output=True)
+                ck.case(dict(kind="slow-last-step", seed=1000 + sd, exact=exact), nontrivial=True)
+                for r, path in enumerate(out[0]):
+                    tots = np.asarray(path, dtype=float).sum(axis=1)
+                    if not np.all(np.abs(tots - 30) <= 1e-9 * 31):
+                        ck.violation("stochastic-total-changes-on-grid", "chain A->B->C (slow last step), run %d of 6 in one gridded call: row "
+                                     "totals %s (start 30), exact=%s" % (r, sorted(set(np.round(tots, 6).tolist()))[:5], exact),
+                                     dict(kind="slow-last-step", seed=1000 + sd, exact=exact))
+                        break
+    except Exception as e:
+        ck.violation("run-error", "%s: %s" % (type(e).__name__, str(e)[:200]), dict(kind="slow-last-step"))
     ck.notes["max_relative_total_drift_deterministic"] = worst
     ck.assumptions += ["deterministic conservation is judged at 1e-6 relative (odeint tolerance 1.5e-8); stochastic totals exactly"]
 
 
 def replay(ck, data):
     inp = data["input"]
+    if inp.get("kind") == "slow-last-step":
+        import pg
+        mc = pg.model(state=["A", "B", "C"], param=["r1", "r2"],
+                      event=[pg.Event(rate="r1*A", transition_list=[pg.Transition(origin="A", destination="B", transition_type="T")]),
+                             pg.Event(rate="r2*B", transition_list=[pg.Transition(origin="B", destination="C", transition_type="T")])])
+        mc.parameters = {"r1": 1.0, "r2": 0.02}
+        mc.initial_values = ([30, 0, 0], np.float64(0))
+        np.random.seed(int(inp["seed"]))
+        with pg.quiet():
+            out = mc.solve_stochast(np.linspace(0.0, 1.5, 7), 6, exact=inp["exact"], full_output=True)
+        for r, path in enumerate(out[0]):
+            tots = np.asarray(path, dtype=float).sum(axis=1)
+            if not np.all(np.abs(tots - 30) <= 1e-9 * 31):
+                return "run %d: row totals %s (start 30)" % (r, sorted(set(np.round(tots, 6).tolist()))[:5])
+        return None
     d = inp["definition"]
     m, order = mg.build(d, route=inp.get("route", "event"), rng=np.random.default_rng(inp.get("seed", 0)))
     if "np_seed" in inp:
